@@ -32,8 +32,8 @@ from circ import CircCtx, coq_circ, coq_opt, coq_qlabel
 IMPORTS = "From CKT Require Import Common.Base Common.Circ Model.Observables Model.Separate Model.Partition Corr.C10Corr."
 CASE_TYPES = {
     "chk_split": "circ * res circ",
-    "chk_combine": "circ * circ",
-    "chk_labels": "nat * circ * bool * bool * list label",
+    "chk_combine": "circ * res circ",
+    "chk_labels": "nat * circ * bool * bool * res (list label)",
     "chk_qmap": "list label * qmap * list (nat * list nat)",
     "chk_separate": "nat * list (list nat) * circ * option (list label) * res (list subcirc * qmap)",
     "chk_pcq": "otables * nat * circ * list label * res circ",
@@ -580,11 +580,11 @@ def generate(rng, tier, outdir):
         cin = ctx.canon_circuit(qc)
         new = qc.copy()
         r = call_canon(_combine_barriers, new)
-        assert r[0] == "ok", r
-        out = ctx.canon_circuit(new)
-        w.add("combine", "chk_combine", (coq_circ(cin), coq_circ(out)), json_case("combine", desc, cin, impl=["ok", out]),
-              nontrivial=len(out) < len(cin))
-        w.count("combine.removed", len(cin) - len(out))
+        out = ctx.canon_circuit(new) if r[0] == "ok" else None
+        exp = Res("ok", coq_circ(out)) if r[0] == "ok" else Res(r[0])
+        w.add("combine", "chk_combine", (coq_circ(cin), exp), json_case("combine", desc, cin, impl=[r[0], out]),
+              nontrivial=(r[0] == "ok" and len(out) < len(cin)))
+        w.count("combine.removed", len(cin) - len(out) if r[0] == "ok" else r[0])
 
     # ---- _partition_labels_from_circuit ----
     for _ in range(N["labels"]):
@@ -599,13 +599,15 @@ def generate(rng, tier, outdir):
         if ign:
             kw["ignore"] = lambda inst: isinstance(inst.operation, TwoQubitQPDGate)
         r = call_canon(_partition_labels_from_circuit, qc, **kw)
-        assert r[0] == "ok", r
-        out = [None if l is None else int(l) for l in r[1]]
-        w.add("labels", "chk_labels", (n, coq_circ(cin), ign, keep, coq_labels(out)),
-              json_case("labels", desc, cin, ignore_qpd2=ign, keep_idle=keep, impl=["ok", out]),
-              nontrivial=len(set(out)) > 1)
-        w.count("labels.ncomponents", len(set(l for l in out if l is not None)))
-        w.count("labels.has_idle", None in out)
+        out = [None if l is None else int(l) for l in r[1]] if r[0] == "ok" else None
+        exp = Res("ok", coq_labels(out)) if r[0] == "ok" else Res(r[0])
+        w.add("labels", "chk_labels", (n, coq_circ(cin), ign, keep, exp),
+              json_case("labels", desc, cin, ignore_qpd2=ign, keep_idle=keep, impl=[r[0], out]),
+              nontrivial=(r[0] == "ok" and len(set(out)) > 1))
+        if r[0] == "ok":
+            w.count("labels.ncomponents", len(set(l for l in out if l is not None)))
+            w.count("labels.has_idle", None in out)
+        w.count("labels.outcome", r[0])
 
     # ---- _qubit_map_from_partition_labels ----
     for _ in range(N["qmap"]):
@@ -959,10 +961,14 @@ def judge(case):
                 pos.setdefault(i["op"][1], []).append(j)
         if any(v != list(range(v[0], v[0] + len(v))) for v in pos.values()):
             return dict(violates=False, detail="uuid groups not contiguous: never produced by separate_circuit; property silent")
+        if impl[0] != "ok":
+            return dict(violates=True, detail=f"_combine_barriers failed: {impl}")
         ok = _wires(n, circ) == _wires(n, impl[1])
         return dict(violates=not ok, detail="per-wire sequences after re-joining barriers")
     if k == "labels":
         n = nqubits(case["desc"])
+        if impl[0] != "ok":
+            return dict(violates=True, detail=f"_partition_labels_from_circuit failed: {impl}")
         out = impl[1]
         used = {q for i in circ for q in i["qs"]}
         if not case["keep_idle"]:
@@ -1157,15 +1163,16 @@ def rerun(case):
         ctx = CircCtx()
         case["circ"] = ctx.canon_circuit(qc)
         new = qc.copy()
-        _combine_barriers(new)
-        case["impl"] = ["ok", ctx.canon_circuit(new)]
+        r = call_canon(_combine_barriers, new)
+        case["impl"] = [r[0], ctx.canon_circuit(new) if r[0] == "ok" else None]
     elif k == "labels":
         qc = build(desc)
         kw = dict(keep_idle_wires=case["keep_idle"])
         if case["ignore_qpd2"]:
             kw["ignore"] = lambda inst: isinstance(inst.operation, TwoQubitQPDGate)
         case["circ"] = CircCtx().canon_circuit(qc)
-        case["impl"] = ["ok", [None if l is None else int(l) for l in _partition_labels_from_circuit(qc, **kw)]]
+        r = call_canon(_partition_labels_from_circuit, qc, **kw)
+        case["impl"] = [r[0], [None if l is None else int(l) for l in r[1]] if r[0] == "ok" else None]
     elif k == "qmap":
         labels = [untag(t) for t in case["labels"]]
         lab = Labeller(labels)
